@@ -171,7 +171,7 @@ template<size_t L> std::string run(const std::vector<std::string>& w)
          else if (n == "ctor_mv") { STD(s = os); F.construct(std::move(o)); }
          else if (n == "ctor_cp") { STD(s = os); F.construct(static_cast<const FS&>(o)); }
          else if (n == "ins_nc") { size_t i = num(a[1]), c = num(a[2]); char ch = chr(a[3]); REQ(c <= BIG); STD(s.insert(i, c, ch)); f.insert(i, c, ch); }
-         else if (n == "ins_pc") { size_t i = num(a[1]); CStr c(a[2]); size_t k = num(a[3]); REQ(k <= c.n); if (k > c.n + 1) throw OutOfDomain{}; STD(s.insert(i, c.p, k)); f.insert(i, c.p, k); }
+         else if (n == "ins_pc") { size_t i = num(a[1]); CStr c(a[2]); size_t k = num(a[3]); REQ(k <= c.n); if (k > c.n + 1) throw OutOfDomain{}; if (k > c.n) nulSeen() = true; STD(s.insert(i, c.p, k)); f.insert(i, c.p, k); }
          else if (n == "ins_c") { size_t i = num(a[1]); CStr c(a[2]); STD(s.insert(i, c.p)); f.insert(i, c.p); }
          else if (n == "ins_s") { size_t i = num(a[1]); std::string x = ustr(a[2]); STD(s.insert(i, x)); f.insert(i, x); }
          else if (n == "ins_ss") { size_t i = num(a[1]); std::string x = ustr(a[2]); size_t is = num(a[3]), k = num(a[4]); STD(s.insert(i, x, is, k)); f.insert(i, x, is, k); }
